@@ -183,3 +183,32 @@ func VerifC03Repeat() {
 	}
 	nd.Reach("C03.repeat")
 }
+
+// VerifC03Include: a render that includes a file in a subdirectory — several times, also in a loop —
+// stores nothing into the parsed template (the include tag's recorded path in particular) or the
+// bindings, and the next render of the same template resolves and renders the include identically.
+func VerifC03Include() {
+	root := nd.TempRoot()
+	e := NewEngine()
+	if nd.Choice(2) == 0 {
+		nd.SetFile(root+"/partials/card.html", "I{{ n }}{% assign seen = n %}", 0)
+	} else {
+		_, err := e.ParseTemplateAndCache([]byte("I{{ n }}{% assign seen = n %}"), root+"/partials/card.html", 1)
+		nd.Assert(err == nil, "cache-parse")
+	}
+	tpl, perr := e.ParseTemplateLocation([]byte("<{% include 'partials/card.html' %}>{% for i in (1..2) %}{% include 'partials/card.html' %}{% endfor %}{{ seen }}"), root+"/main.html", 1)
+	nd.Assert(perr == nil, "includer-parses")
+	if perr != nil {
+		return
+	}
+	n := nd.IntIn(0, 9)
+	b := Bindings{"n": n}
+	nd.BeginRender()
+	o1, e1 := tpl.RenderString(b)
+	nd.EndRender()
+	o2, e2 := tpl.RenderString(b)
+	nd.Assert(e1 == nil && e2 == nil, "include-renders-every-time")
+	nd.Assert(o1 == o2, "second-render-identical")
+	nd.Assert(len(b) == 1, "bindings-size-unchanged")
+	nd.Reach("C03.include")
+}
